@@ -255,13 +255,19 @@ def rule_d(ctx):
     okc = len(uo) == 1 and (op_const(uo[0][1]["args"][1]) or {}).get("int") == 1
     ctx.check(okc, "C07-D", "ol-start:parse-or-1", uo[0][1]["span"] if uo else pdn.span, pdn.id, "")
     init = []
-    for l, loc in enumerate(pdn.locals):
-        if loc.get("name") == "start" and loc["ty"] == "i64":
-            for r in pdn.defs()[l]:
-                if r[0] == "stmt" and "use" in r[3]["rv"]:
-                    k = op_const(r[3]["rv"]["use"])
-                    if k:
-                        init.append(k.get("int"))
+    # the start number: the i64 captured by the closure that builds the Ol node
+    for (cbb, i, cb, ops, fields) in closure_bodies_created_in(F, pdn):
+        builds_ol = any((st.get("rv") or {}).get("variant") == "Ol" for x in cb.reachable() for st in cb.stmts(x))
+        if not builds_ol:
+            continue
+        for o in ops:
+            pl = direct_place(pdn, o)
+            if pl is not None and is_bare(pl) and pdn.local_ty(pl["l"]) == "i64":
+                for r in pdn.defs()[pl["l"]]:
+                    if r[0] == "stmt" and "use" in r[3]["rv"]:
+                        k = op_const(r[3]["rv"]["use"])
+                        if k:
+                            init.append(k.get("int"))
     ctx.check(init == [1], "C07-D", "ol-start:default-1", pdn.span, pdn.id, "constant initialisers of start: %s" % init)
     # estimate and renderer compute the marker width from (start, start + n − 1)
     cops = F.one("calc_ol_prefix_size")
